@@ -228,7 +228,7 @@ def run(ctx):
     if ctx.replay:
         cases = [case_from_line(l) for l in ctx.replay]
     else:
-        cases = gen_cases(ctx, ctx.scale(700, 9000))
+        cases = gen_cases(ctx, ctx.scale(1500, 16000))
     impl = {}
     for P in sorted(set(c["P"] for c in cases)):
         lines = [c["line"] for c in cases if c["P"] == P]
